@@ -5,7 +5,7 @@ import sys
 
 
 def main(argv):
-    if len(argv) < 2:
+    if len(argv) < 1 or (len(argv) < 2 and not argv[0].startswith('selftest')):
         print(__doc__)
         return 2
     os.environ.setdefault('PYTHONDONTWRITEBYTECODE', '1')
